@@ -21,6 +21,7 @@ import (
 	"strconv"
 	"strings"
 	"sync"
+	"sync/atomic"
 	"testing"
 	"time"
 
@@ -646,6 +647,87 @@ func TestVerifC31Real(t *testing.T) {
 		res.Events = c31R.snapshot()
 		out.put(res)
 	}()
+
+	// R6 family: sends issued WHILE the system shuts down, at every phase that is observable through the hooks: to a
+	// grain that is already deactivated, to one whose OnDeactivate is running, with Tell and with Ask. One grain's
+	// OnDeactivate is held so that shutdown stays in its grain-draining phase. After Stop every activation must have got
+	// its OnDeactivate (the oracle compares successful OnActivate and OnDeactivate counts per grain).
+	for _, variant := range []string{"tell", "ask"} {
+		func() {
+			c31R.reset()
+			res := c31RealOut{Scenario: "send_during_shutdown_" + variant}
+			sys := c31RealSystem(t)
+			release := make(chan struct{})
+			var holdP atomic.Int32
+			holdP.Store(-1)
+			c31R.onDeact = func(p int) bool {
+				if int32(p) == holdP.Load() {
+					<-release
+				}
+				return true
+			}
+			fast := c31Identity(t, sys, "r6-fast-"+variant, WithLongLivedGrain())
+			slow := c31Identity(t, sys, "r6-slow-"+variant, WithLongLivedGrain())
+			_ = sys.TellGrain(ctx, fast, &c31Msg{ID: 1})
+			_ = sys.TellGrain(ctx, slow, &c31Msg{ID: 2})
+			// which process index belongs to the slow grain
+			for _, e := range c31R.snapshot() {
+				if e.K == 2 && e.G == "r6-slow-"+variant {
+					holdP.Store(int32(e.P))
+				}
+			}
+			stopped := make(chan error, 1)
+			go func() { stopped <- sys.Stop(ctx) }()
+			// shutdown has poisoned both grains: the fast one is through its OnDeactivate, the slow one is inside it
+			okFast := c31R.waitFor(10*time.Second, func(ev []c31Event) bool {
+				for _, e := range ev {
+					if e.K == 6 && e.G == "r6-fast-"+variant {
+						return true
+					}
+				}
+				return false
+			})
+			okSlow := c31R.waitFor(10*time.Second, func(ev []c31Event) bool {
+				for _, e := range ev {
+					if e.K == 5 && e.G == "r6-slow-"+variant {
+						return true
+					}
+				}
+				return false
+			})
+			res.Notes = append(res.Notes, fmt.Sprintf("fast grain deactivated by shutdown: %v; slow grain inside OnDeactivate: %v", okFast, okSlow))
+			time.Sleep(10 * time.Millisecond) // let deactivate() of the fast grain finish (flag cleared, entry deleted)
+			send := func(id *GrainIdentity, m int) {
+				sctx, cancel := context.WithTimeout(ctx, 2*time.Second)
+				defer cancel()
+				var err error
+				if variant == "tell" {
+					err = sys.TellGrain(sctx, id, &c31Msg{ID: m})
+				} else {
+					_, err = sys.AskGrain(sctx, id, &c31Msg{ID: m}, time.Second)
+				}
+				res.Notes = append(res.Notes, fmt.Sprintf("%s(%s, %d) during shutdown -> %v", variant, id.Name(), m, err))
+			}
+			send(fast, 10) // to the already-deactivated grain
+			send(slow, 11) // to the grain that is deactivating right now
+			send(fast, 12)
+			time.Sleep(20 * time.Millisecond)
+			close(release)
+			select {
+			case err := <-stopped:
+				if err != nil {
+					res.Notes = append(res.Notes, "stop failed: "+err.Error())
+				} else {
+					res.Notes = append(res.Notes, "stop ok")
+				}
+			case <-time.After(60 * time.Second):
+				res.Notes = append(res.Notes, "stop failed: still running after 60s")
+			}
+			time.Sleep(20 * time.Millisecond)
+			res.Events = c31R.snapshot()
+			out.put(res)
+		}()
+	}
 
 	// R5: stress — concurrent senders, no passivation, pills only after the senders are done
 	func() {
